@@ -202,13 +202,27 @@ func checkText(run *vr.Run, text string, code int32) {
 	if r.Code != int(code) {
 		run.Violation("parse|code|"+cls, fmt.Sprintf("%s: code %d", id, r.Code), rep)
 	}
-	okMain := r.Message == w.msg && reflect.DeepEqual(r.AdditionalInfo, w.param) && r.Description == w.desc
-	okAlt := w.hasAlt && r.Message == w.altMsg && r.AdditionalInfo == nil && r.Description == w.altDesc
+	// the description is determined by the statement only for catalogued names; the parameter is compared as a
+	// number, whatever integer type carries it
+	sameParam := func(got, want any) bool {
+		if want == nil || got == nil {
+			return want == nil && got == nil
+		}
+		return fmt.Sprint(got) == fmt.Sprint(want)
+	}
+	descOK := func(name, got, want string) bool {
+		if _, known := catalogue[name]; !known {
+			return true
+		}
+		return got == want
+	}
+	okMain := r.Message == w.msg && sameParam(r.AdditionalInfo, w.param) && descOK(w.msg, r.Description, w.desc)
+	okAlt := w.hasAlt && r.Message == w.altMsg && r.AdditionalInfo == nil && descOK(w.altMsg, r.Description, w.altDesc)
 	if !okMain && !okAlt {
 		field := "message"
 		if r.Message == w.msg {
 			field = "parameter"
-			if reflect.DeepEqual(r.AdditionalInfo, w.param) {
+			if sameParam(r.AdditionalInfo, w.param) {
 				field = "description"
 			}
 		}
@@ -218,7 +232,7 @@ func checkText(run *vr.Run, text string, code int32) {
 	var name string
 	var add any
 	if p, _, _ := vr.Try(func() { name, add = mtproto.TryExpandError(text) }); !p {
-		if !(name == w.msg && reflect.DeepEqual(add, w.param)) && !(w.hasAlt && name == w.altMsg && add == nil) {
+		if !(name == w.msg && sameParam(add, w.param)) && !(w.hasAlt && name == w.altMsg && add == nil) {
 			run.Violation("expand|"+cls, fmt.Sprintf("TryExpandError(%q) = (%q, %v), reference (%q, %v)", text, name, add, w.msg, w.param), rep)
 		}
 	}
